@@ -188,6 +188,35 @@ example : cfgRoundTrip ⟨"k", 3, 64, 64, 32, 64, 64, 64⟩ 0 (4294967296 + 4096
           cfgRoundTrip ⟨"k", 3, 64, 64, 32, 64, 64, 64⟩ 0 4294967296 = 0 ∧
           cfgRoundTrip ⟨"k", 3, 64, 64, 64, 64, 64, 64⟩ 7 (4294967296 + 4096) = 4294967296 + 4096 := by decide
 
+/-! ### integer literals and the thread's errno -/
+
+/-- every integer-literal rule of lexer.l (decimal, hex, octal) clears `errno` before the `strtoll` it tests -/
+theorem gen_literal_rules_reset_errno :
+    litRules.length = 3 ∧ (∀ x ∈ [8, 10, 16], (x, true) ∈ litRules) ∧ ∀ r ∈ litRules, r.2 = true := by decide
+
+/-- **Literal acceptance is history-free**: with the reset in place, whatever `errno` earlier code left behind (a rejected
+    literal of an earlier compilation on this thread, an underflowing float literal earlier in the same source), a literal
+    is rejected iff its value exceeds INT64_MAX — in particular INT64_MAX itself is accepted in every base. -/
+theorem literal_history_free (e : Bool) (n : Nat) :
+    (lexInt true e n).1 = (if n > int64Max then .error .intOverflow else .ok n) := by
+  unfold lexInt strtollC
+  by_cases h : n > int64Max <;> simp [h]
+
+theorem literal_seq_history_free (e : Bool) (ls : List (Nat × Nat)) (hr : ∀ l ∈ ls, l.1 = 8 ∨ l.1 = 10 ∨ l.1 = 16) :
+    lexIntSeq litRules e ls = ls.map fun l => if l.2 > int64Max then .error .intOverflow else .ok l.2 := by
+  induction ls generalizing e with
+  | nil => rfl
+  | cons l rest ih =>
+    have hres : resetsOf litRules l.1 = true := by
+      rcases hr l (by simp) with h | h | h <;> rw [h] <;> decide
+    show (lexInt (resetsOf litRules l.1) e l.2).1 :: lexIntSeq litRules (lexInt (resetsOf litRules l.1) e l.2).2 rest = _
+    rw [hres, literal_history_free, ih _ (fun x hx => hr x (by simp [hx]))]
+    rfl
+
+/-- what the reset prevents: after an overflow, INT64_MAX in a rule without the reset is rejected -/
+example : (lexIntSeq [(10, true), (16, true), (8, false)] false [(10, int64Max + 1), (8, int64Max)]) =
+    [.error .intOverflow, .error .intOverflow] := by decide
+
 variable {G : Guards} (hG : G.Sound)
 include hG
 set_option linter.unusedSectionVars false
@@ -569,10 +598,34 @@ theorem timeout_cadence (N : Nat) (hN : N ≥ 1) (cycle k : Nat) (h : cycle < N)
   have : N ≤ cycle + N := by omega
   exact (Nat.le_div_iff_mul_le (by omega)).2 (by omega)
 
+theorem vmReadsProg_nil_writers (N : Nat) (prog : List String) (cycle : Nat) :
+    vmReadsProg G N [] cycle prog = vmReads G N cycle prog.length := by
+  induction prog generalizing cycle with
+  | nil => rfl
+  | cons op rest ih => simp [vmReadsProg, vmReads, ih]
+
+/-- **Timeout cadence across rule boundaries**: no opcode of the translated interpreter writes the counter
+    (`vmCycleWriters = []`), so for ANY executed instruction sequence — however it is cut into rules
+    (`OP_INIT_RULE … OP_MATCH_RULE`) — the clock is read exactly `⌊(cycle + length) / N⌋` times: at most `N`
+    instructions run between two deadline checks, also when every single rule is shorter than `N`. -/
+theorem timeout_cadence_across_rules (N : Nat) (hN : N ≥ 1) (cycle : Nat) (h : cycle < N) (prog : List String) :
+    vmReadsProg G N vmCycleWriters cycle prog = (cycle + prog.length) / N ∧
+    (prog.length ≥ N → vmReadsProg G N vmCycleWriters cycle prog ≥ 1) := by
+  have e : vmCycleWriters = [] := by decide
+  rw [e, vmReadsProg_nil_writers hG]
+  refine ⟨vmReads_eq hG N hN prog.length cycle h, fun hl => ?_⟩
+  rw [vmReads_eq hG N hN prog.length cycle h]
+  exact (Nat.le_div_iff_mul_le (by omega)).2 (by omega)
+
 /-- **Timeout cadence of the block scanner**: any window of `k` consecutive bytes contains at
     least `⌊k / S⌋` clock reads (one per `S` bytes), wherever the window starts. -/
 theorem block_timeout_cadence (S : Nat) (hS : S ≥ 1) (a k : Nat) : blockReads S a k ≥ k / S :=
   blockReads_ge hG S hS k a
+
+/-- what the theorem excludes: with a counter restarted by `OP_INIT_RULE`, rules shorter than `N` never read the clock -/
+example : vmReadsProg Guards.spec 10 ["OP_INIT_RULE"] 0
+    ((List.replicate 6 ("OP_INIT_RULE" :: List.replicate 4 "OP_PUSH")).flatten) = 0 ∧
+    vmReadsProg Guards.spec 10 [] 0 ((List.replicate 6 ("OP_INIT_RULE" :: List.replicate 4 "OP_PUSH")).flatten) = 3 := by decide
 
 /-- Once the clock has passed the deadline, the next clock read reports the timeout
     (the comparisons are strict `>`: a scan is never cut short before the deadline). -/
